@@ -76,7 +76,7 @@ type seqState struct {
 }
 
 func (s *seqState) fail(fp, format string, args ...any) { s.c.FailP(prop, fp, format, args...) }
-func (s *seqState) pf() *poolFile                          { return s.pool.files[0] }
+func (s *seqState) pf() *poolFile                       { return s.pool.files[0] }
 func (s *seqState) refs() int {
 	return s.links + s.desc[1] + s.desc[2] + s.desc[3] + len(s.frozen)
 }
@@ -291,10 +291,28 @@ func checkUpload(fail failFn, fn digest.Function, reported digest.Digest, puts [
 	return put.data, true
 }
 
-func (s *seqState) opUpload(fn digest.Function) {
+// opUpload uploads the file; with readError the pool file fails the first
+// read the upload needs (if it needs one), so that the upload has to fail and
+// must give back its frozen descriptor on the error path.
+func (s *seqState) opUpload(fn digest.Function, readError bool) {
 	before := s.cas.count()
+	pf := s.pf()
+	failuresBefore := pf.readFailures
+	if readError && !s.released {
+		pf.failReads = 1
+	}
 	d, err := uploadFile(s.leaf, s.cas, fn, closedChannel)
+	pf.failReads = 0
 	puts := s.cas.putsSince(before, "")
+	if pf.readFailures > failuresBefore {
+		// The storage failed underneath the upload: it cannot have
+		// succeeded, and it must not keep a reference.
+		if err == nil {
+			s.fail("upload-succeeded-despite-read-error", "UploadFile reported %s although the pool file failed to deliver the contents", d)
+		}
+		s.settle("upload-read-error")
+		return
+	}
 	if s.released {
 		if err == nil {
 			s.fail("stale-upload-succeeded", "UploadFile succeeded on a file whose last reference is gone")
@@ -443,7 +461,7 @@ func (s *seqState) final() {
 	s.opLink()
 	s.opOpen(virtual.ShareMaskRead, false)
 	s.opOpen(virtual.ShareMaskWrite, true)
-	s.opUpload(sha256Fn)
+	s.opUpload(sha256Fn, false)
 	s.opFrozenOpen()
 	s.opStat()
 	s.check()
@@ -520,8 +538,9 @@ func seqOps() []mc.SeqOp {
 		seqOp("truncate 3", canMutate, func(s *seqState) { s.opTruncate(3) }),
 		seqOp("allocate [2,5)", canWrite, (*seqState).opAllocate),
 		seqOp("chmod", live, (*seqState).opChmod),
-		seqOp("upload sha256", nil, func(s *seqState) { s.opUpload(sha256Fn) }),
-		seqOp("upload md5", nil, func(s *seqState) { s.opUpload(md5Fn) }),
+		seqOp("upload sha256", nil, func(s *seqState) { s.opUpload(sha256Fn, false) }),
+		seqOp("upload md5", nil, func(s *seqState) { s.opUpload(md5Fn, false) }),
+		seqOp("upload sha256 (pool read error)", live, func(s *seqState) { s.opUpload(sha256Fn, true) }),
 		seqOp("stat", nil, (*seqState).opStat),
 		seqOp("frozen-open", nil, (*seqState).opFrozenOpen),
 		seqOp("frozen-close", func(s *seqState) bool { return len(s.frozen) > 0 }, (*seqState).opFrozenClose),
@@ -538,7 +557,7 @@ func seqs() []*mc.Seq {
 		{"seq-nfs-created-w", true, virtual.ShareMaskWrite},
 	} {
 		cfg := cfg
-		depth := map[string]int{"quick": 5, "thorough": 7}
+		depth := map[string]int{"quick": 5, "thorough": 8}
 		r = append(r, &mc.Seq{
 			Name:   cfg.name,
 			Props:  []string{prop},
